@@ -26,6 +26,14 @@ Theorem C04_with : forall g req, shape (with_fields g req) = shape (base_fields 
 Proof. exact with_same_shape. Qed.
 Print Assumptions C04_with.
 
+(* the Final variant that into! returns holds the mandatory tables, then the requested optional ones, then the container: the field sequence of
+   the base struct with the non-requested optional tables removed, order kept *)
+Theorem C04_final : forall g mask,
+  shape (final_fields g (generated_for g mask)) = map vt (sort_ti (g_mand g)) ++ map vt (generated_for g mask) ++ [(2, 0)]
+  /\ subseq (shape (final_fields g (generated_for g mask))) (shape (base_fields g)).
+Proof. intros g mask. split; [apply final_shape|apply final_restricts_base]. Qed.
+Print Assumptions C04_final.
+
 (* the layout is a function of the definitions only: the sorted order does not depend on the order in which the user
    listed the traits (nor on anything else, e.g. a hash seed: gen_trait / sort_ti take no other input) *)
 Theorem C04_det : forall l1 l2, Permutation l1 l2 -> NoDup (map ti_name l1) -> sort_ti l1 = sort_ti l2.
